@@ -330,19 +330,54 @@ Proof.
   unfold Rb. cbn. rewrite Hz, R32, R34. repeat split; first [eassumption | reflexivity].
 Qed.
 
+(* a snapshot taken when nothing has been done since the last checkpoint-like message (what the rewindable toggles
+   of the suspender plan do): the relation is kept *)
+Lemma snapshot_BR bs a0 aend :
+  BR bs a0 a0 aend -> wfa a0 -> wfa aend ->
+  BR (map (fun kb => (fst kb, b_snapshot (snd kb))) bs) a0 a0 aend.
+Proof.
+  intros HBR Hw0 Hwe. unfold BR in *. destruct (a_run a0) as [r0|] eqn:E0.
+  - destruct HBR as (b & X & Y & r0' & rend & Hbs & H0 & He & Hb0 & HR & Hsc & Hp1 & Hp2). injection H0 as <-.
+    destruct HR as (R1 & R2 & R3 & R4 & R5).
+    unfold wfa in Hw0, Hwe. rewrite E0 in Hw0. rewrite He in Hwe.
+    destruct Hw0 as (V1 & V2 & V3 & V4). destruct Hwe as (W1 & W2 & W3 & W4).
+    assert (Hnd : NoDup (keys (bdescs b))).
+    { destruct Hp2 as [q Hq]. rewrite W2, Hq, keys_app in W1. apply NoDup_app_inv in W1. apply W1. }
+    subst bs. cbn [map fst snd].
+    exists (b_snapshot b), X, X, r0, rend.
+    split; [reflexivity|]. split; [reflexivity|]. split; [exact He|]. split; [exact Hb0|].
+    split; [unfold Rb; cbn; repeat split; assumption|].
+    split; [|split; [cbn; rewrite R4; apply prefix_refl | cbn; exact Hp2]].
+    cbn. change (fold_set (bseq b) (bseqcopy b) = ab_seq r0 ++ ones X). rewrite <- R5.
+    apply fold_set_prefix.
+    + rewrite R5, keys_app, keys_ones, V2, <- keys_app, <- R4. exact Hnd.
+    + rewrite Hsc, R5, !keys_app, !keys_ones, V2, <- !keys_app, <- R4. apply prefix_map. exact Hp1.
+  - subst bs. reflexivity.
+Qed.
+
 (* ------------------------------------------------------------------ head messages *)
+Lemma BR_aend bs a aend' : BR bs a a a -> run_rel a aend' -> BR bs a a aend'.
+Proof.
+  unfold BR, run_rel. destruct (a_run a) as [r|] eqn:Er; [|auto].
+  intros (b & X & Y & r0 & rend & Hbs & H0 & He & Hb0 & HR & Hsc & Hp1 & Hp2) Hrr.
+  injection H0 as <-. injection He as <-. destruct (a_run aend') as [rend'|]; [|contradiction]. destruct Hrr as [_ Hpe].
+  pose proof HR as (R1 & R2 & R3 & R4 & R5). rewrite R4 in Hp2. apply prefix_app_same in Hp2. subst X. rewrite app_nil_r in R4.
+  exists b, [], Y, r, rend'. repeat (split; [first [assumption | reflexivity]|]). rewrite R4. exact Hpe.
+Qed.
+
 Lemma exec_head (s : st) m a0 acur acur' aend' dm cc :
   BR (bundlers s) a0 acur acur -> wfa a0 -> wfa acur -> is_head (mcmd m) = true -> astep acur m = Some (acur', dm) ->
   run_rel acur' aend' ->
   uid_supply s = a_next acur -> record_intr s = false -> cache s = Some cc ->
+  (needs_fresh (mcmd m) = true -> a0 = acur) ->
   exists s' o cr,
     exec_cmd s m = (s', cr, o) /\
     ((exists v, cr = Done (RVal v)) \/ (cr = Susp KCkptSleep /\ mcmd m = CCheckpoint)) /\ keeps s s' /\
-    cache s' = match mcmd m with COpenRun => cache s | _ => Some [] end /\ uid_supply s' = a_next acur' /\
+    (cache s' = Some [] \/ needs_fresh (mcmd m) = true /\ cache s' = cache s) /\ uid_supply s' = a_next acur' /\
     forallb devdoc o = true /\ final_events o = doc_events dm /\ stops o = doc_stops dm /\
     BR (bundlers s') acur' acur' aend'.
 Proof.
-  intros HBR Hw0 Hwc Hh Hst Hrr Hu Hri Hc.
+  intros HBR Hw0 Hwc Hh Hst Hrr Hu Hri Hc Hfr.
   pose proof (astep_mrun _ _ _ _ _ _ Hst) as Hrun.
   unfold PointSpec.astep in Hst. rewrite Hrun, Nat.eqb_refl in Hst. cbn [negb] in Hst.
   unfold RE.exec_cmd. destruct (mcmd m) eqn:Ecmd; cbn in Hh; try discriminate Hh; clear Hh.
@@ -368,27 +403,27 @@ Proof.
         * cbn. rewrite R4. exact Hpe. }
       destruct (deferred s) eqn:Hdf.
       * do 3 eexists. split; [reflexivity|]. split; [right; split; reflexivity|].
-        split; [keeps_tac|]. split; [reflexivity|]. split; [exact Hu|].
+        split; [keeps_tac|]. split; [left; reflexivity|]. split; [exact Hu|].
         split; [reflexivity|]. split; [reflexivity|]. split; [reflexivity|].
         simp_st. rewrite Hbs. cbn [map fst snd]. exact HB.
       * do 3 eexists. split; [reflexivity|]. split; [left; eexists; reflexivity|].
-        split; [keeps_tac|]. split; [reflexivity|]. split; [exact Hu|].
+        split; [keeps_tac|]. split; [left; reflexivity|]. split; [exact Hu|].
         split; [reflexivity|]. split; [reflexivity|]. split; [reflexivity|].
         simp_st. rewrite Hbs. cbn [map fst snd]. exact HB.
     + injection Hst as Ha Hd; subst acur' dm. unfold BR in HBR. rewrite Er in HBR. rewrite HBR. cbn [existsb]. rewrite Hc. simp_st.
       destruct (deferred s) eqn:Hdf.
       * do 3 eexists. split; [reflexivity|]. split; [right; split; reflexivity|].
-        split; [keeps_tac|]. split; [reflexivity|]. split; [exact Hu|].
+        split; [keeps_tac|]. split; [left; reflexivity|]. split; [exact Hu|].
         split; [reflexivity|]. split; [reflexivity|]. split; [reflexivity|].
         simp_st. rewrite HBR. unfold BR. cbn [a_run freshen]. rewrite Er. reflexivity.
       * do 3 eexists. split; [reflexivity|]. split; [left; eexists; reflexivity|].
-        split; [keeps_tac|]. split; [reflexivity|]. split; [exact Hu|].
+        split; [keeps_tac|]. split; [left; reflexivity|]. split; [exact Hu|].
         split; [reflexivity|]. split; [reflexivity|]. split; [reflexivity|].
         simp_st. rewrite HBR. unfold BR. cbn [a_run freshen]. rewrite Er. reflexivity.
   - (* open_run *)
     destruct (a_run acur) as [r|] eqn:Er; [discriminate|]. destruct (a_fresh acur); [|discriminate]. injection Hst as Ha Hd; subst acur' dm.
     unfold BR in HBR. rewrite Er in HBR. rewrite HBR, Hri. cbn [amem alookup].
-    do 3 eexists. split; [reflexivity|]. split; [left; eexists; reflexivity|]. split; [keeps_tac|]. split; [reflexivity|]. split; [sb; rewrite Hu; reflexivity|].
+    do 3 eexists. split; [reflexivity|]. split; [left; eexists; reflexivity|]. split; [keeps_tac|]. split; [right; split; reflexivity|]. split; [sb; rewrite Hu; reflexivity|].
     split; [reflexivity|]. split; [cbn; reflexivity|]. split; [reflexivity|].
     sb. rewrite HBR, Hrun, Hu. cbn [aset].
     unfold run_rel in Hrr. cbn [a_run] in Hrr. destruct (a_run aend') as [rend'|] eqn:Ee; [|contradiction].
@@ -404,10 +439,50 @@ Proof.
     rewrite R4 in Hp2. apply prefix_app_same in Hp2. subst X. cbn [ones map] in R5. rewrite app_nil_r in R4, R5.
     sb. rewrite Hbs, Hrun. cbn [alookup aremove]. rewrite Nat.eqb_refl.
     unfold RE.reset_checkpoint. simp_st. rewrite Hc. simp_st.
-    do 3 eexists. split; [reflexivity|]. split; [left; eexists; reflexivity|]. split; [keeps_tac|]. split; [reflexivity|]. split; [exact Hu|].
+    do 3 eexists. split; [reflexivity|]. split; [left; eexists; reflexivity|]. split; [keeps_tac|]. split; [left; reflexivity|]. split; [exact Hu|].
     split; [reflexivity|]. split; [reflexivity|].
     split; [cbn; unfold num_events, ab_num_events; rewrite R1, R5; reflexivity|].
     simp_st. unfold BR. cbn [a_run map]. reflexivity.
+  - (* stage *)
+    destruct (a_fresh acur) eqn:Efr; [|discriminate]. injection Hst as Ha Hd; subst acur' dm.
+    rewrite <- (Hfr eq_refl) in *.
+    destruct (mobj m) as [d|] eqn:Eo.
+    + destruct (negb (mem_nat d (RE.stageables P D s))) eqn:Est.
+      * do 3 eexists. split; [reflexivity|]. split; [left; eexists; reflexivity|]. split; [apply keeps_refl|].
+        split; [right; split; reflexivity|]. split; [exact Hu|]. split; [reflexivity|]. split; [reflexivity|]. split; [reflexivity|].
+        apply BR_aend; assumption.
+      * destruct (dcall s d MStage) as [[s1 r1] o1] eqn:Edc. unfold RE.dcall in Edc. destruct (dev (RE.dst P D s) d MStage) as [d' r'] eqn:Ed.
+        injection Edc as <- <- <-.
+        assert (Hnr : forall e, r' <> DRaise e).
+        { intros e He. destruct (Hdev (RE.dst P D s) d) as (_ & _ & _ & _ & _ & Hs & _). apply (Hs e). rewrite Ed. exact He. }
+        unfold RE.reset_checkpoint. simp_st. rewrite Hc.
+        destruct r'; try (exfalso; eapply Hnr; reflexivity);
+          (do 3 eexists; split; [reflexivity|]; split; [left; eexists; reflexivity|]; split; [keeps_tac|];
+           split; [left; reflexivity|]; split; [exact Hu|]; split; [reflexivity|]; split; [reflexivity|]; split; [reflexivity|];
+           simp_st; apply BR_aend; [apply snapshot_BR; assumption | assumption]).
+    + do 3 eexists. split; [reflexivity|]. split; [left; eexists; reflexivity|]. split; [apply keeps_refl|].
+      split; [right; split; reflexivity|]. split; [exact Hu|]. split; [reflexivity|]. split; [reflexivity|]. split; [reflexivity|].
+      apply BR_aend; assumption.
+  - (* unstage *)
+    destruct (a_fresh acur) eqn:Efr; [|discriminate]. injection Hst as Ha Hd; subst acur' dm.
+    rewrite <- (Hfr eq_refl) in *.
+    destruct (mobj m) as [d|] eqn:Eo.
+    + destruct (negb (mem_nat d (RE.stageables P D s))) eqn:Est.
+      * do 3 eexists. split; [reflexivity|]. split; [left; eexists; reflexivity|]. split; [apply keeps_refl|].
+        split; [right; split; reflexivity|]. split; [exact Hu|]. split; [reflexivity|]. split; [reflexivity|]. split; [reflexivity|].
+        apply BR_aend; assumption.
+      * destruct (dcall s d MUnstage) as [[s1 r1] o1] eqn:Edc. unfold RE.dcall in Edc. destruct (dev (RE.dst P D s) d MUnstage) as [d' r'] eqn:Ed.
+        injection Edc as <- <- <-.
+        assert (Hnr : forall e, r' <> DRaise e).
+        { intros e He. destruct (Hdev (RE.dst P D s) d) as (_ & _ & _ & _ & _ & _ & Hs). apply (Hs e). rewrite Ed. exact He. }
+        unfold RE.reset_checkpoint. simp_st. rewrite Hc.
+        destruct r'; try (exfalso; eapply Hnr; reflexivity);
+          (do 3 eexists; split; [reflexivity|]; split; [left; eexists; reflexivity|]; split; [keeps_tac|];
+           split; [left; reflexivity|]; split; [exact Hu|]; split; [reflexivity|]; split; [reflexivity|]; split; [reflexivity|];
+           simp_st; apply BR_aend; [apply snapshot_BR; assumption | assumption]).
+    + do 3 eexists. split; [reflexivity|]. split; [left; eexists; reflexivity|]. split; [apply keeps_refl|].
+      split; [right; split; reflexivity|]. split; [exact Hu|]. split; [reflexivity|]. split; [reflexivity|]. split; [reflexivity|].
+      apply BR_aend; assumption.
 Qed.
 
 (* ------------------------------------------------------------------ rewind *)
@@ -440,30 +515,5 @@ Proof.
   - subst bs. destruct (a_run a0); [contradiction | reflexivity].
 Qed.
 
-
-(* a snapshot taken when nothing has been done since the last checkpoint-like message (what the rewindable toggles
-   of the suspender plan do): the relation is kept *)
-Lemma snapshot_BR bs a0 aend :
-  BR bs a0 a0 aend -> wfa a0 -> wfa aend ->
-  BR (map (fun kb => (fst kb, b_snapshot (snd kb))) bs) a0 a0 aend.
-Proof.
-  intros HBR Hw0 Hwe. unfold BR in *. destruct (a_run a0) as [r0|] eqn:E0.
-  - destruct HBR as (b & X & Y & r0' & rend & Hbs & H0 & He & Hb0 & HR & Hsc & Hp1 & Hp2). injection H0 as <-.
-    destruct HR as (R1 & R2 & R3 & R4 & R5).
-    unfold wfa in Hw0, Hwe. rewrite E0 in Hw0. rewrite He in Hwe.
-    destruct Hw0 as (V1 & V2 & V3 & V4). destruct Hwe as (W1 & W2 & W3 & W4).
-    assert (Hnd : NoDup (keys (bdescs b))).
-    { destruct Hp2 as [q Hq]. rewrite W2, Hq, keys_app in W1. apply NoDup_app_inv in W1. apply W1. }
-    subst bs. cbn [map fst snd].
-    exists (b_snapshot b), X, X, r0, rend.
-    split; [reflexivity|]. split; [reflexivity|]. split; [exact He|]. split; [exact Hb0|].
-    split; [unfold Rb; cbn; repeat split; assumption|].
-    split; [|split; [cbn; rewrite R4; apply prefix_refl | cbn; exact Hp2]].
-    cbn. change (fold_set (bseq b) (bseqcopy b) = ab_seq r0 ++ ones X). rewrite <- R5.
-    apply fold_set_prefix.
-    + rewrite R5, keys_app, keys_ones, V2, <- keys_app, <- R4. exact Hnd.
-    + rewrite Hsc, R5, !keys_app, !keys_ones, V2, <- !keys_app, <- R4. apply prefix_map. exact Hp1.
-  - subst bs. reflexivity.
-Qed.
 
 End B.
